@@ -81,6 +81,11 @@ type verifC12CSR struct {
 	// Op "rotate": a sequence of CA configuration updates (CAManager.UpdateConfiguration, what ConnectCA.ConfigurationSet
 	// calls), each followed by a plain CSR (service web, allow-all) so that S7/S8 are judged right after the update.
 	Rotate []verifC12Rotation `json:"rotate,omitempty"`
+	// The server lives for the whole process, so a rotation case starts from whatever earlier cases left behind. Pre
+	// records that starting point (which pairs are listed in the root set, which one is active; -1 = the server's own
+	// initial root) so that a replay on a fresh server can establish it first.
+	PreListed []int `json:"pre_listed,omitempty"`
+	PreActive int   `json:"pre_active,omitempty"`
 }
 
 // verifC12Rotation configures the built-in provider with the explicit key/certificate pair number To of the process.
@@ -625,8 +630,69 @@ func verifC12SameCert(pemA, pemB string) bool {
 	return errA == nil && errB == nil && bytes.Equal(a.Raw, b.Raw)
 }
 
+func (e *verifC12Env) rotationConfig(pair int, force bool) *structs.CARequest {
+	target := e.cas[((pair%len(e.cas))+len(e.cas))%len(e.cas)]
+	return &structs.CARequest{
+		Datacenter: e.dc,
+		Config: &structs.CAConfiguration{
+			Provider: structs.ConsulCAProvider,
+			Config: map[string]interface{}{
+				"PrivateKey":          target.SigningKey,
+				"RootCert":            target.RootCert,
+				"LeafCertTTL":         "72h",
+				"IntermediateCertTTL": "288h",
+				"CSRMaxPerSecond":     0,
+				"CSRMaxConcurrent":    0,
+			},
+			ForceWithoutCrossSigning: force,
+		},
+	}
+}
+
+// rotationState reports which pairs are listed in the root set and which one is active (-1: none of the pairs).
+func (e *verifC12Env) rotationState(f verifkit.F) (listed []int, active int) {
+	all, _ := verifC12RootsNow(f, e)
+	active = -1
+	for _, r := range all {
+		for j, ca := range e.cas {
+			if verifC12SameCert(ca.RootCert, r.RootCert) {
+				listed = append(listed, j)
+				if r.Active {
+					active = j
+				}
+			}
+		}
+	}
+	sort.Ints(listed)
+	return listed, active
+}
+
+// establish brings a (fresh) server to the recorded starting point of a rotation case. A no-op in a generated run,
+// where the starting point was read off the server itself.
+func (e *verifC12Env) establish(f verifkit.F, s verifC12CSR) {
+	listed, active := e.rotationState(f)
+	has := map[int]bool{}
+	for _, p := range listed {
+		has[p] = true
+	}
+	for _, p := range s.PreListed {
+		if !has[p] {
+			if err := e.srv.caManager.UpdateConfiguration(e.rotationConfig(p, false)); err != nil {
+				f.Logf("harness: establishing the starting point: rotation to pair %d refused: %v", p, err)
+			}
+			active = p
+		}
+	}
+	if s.PreActive >= 0 && active != s.PreActive && len(s.PreListed) > 0 {
+		if err := e.srv.caManager.UpdateConfiguration(e.rotationConfig(s.PreActive, false)); err != nil {
+			f.Logf("harness: establishing the starting point: rotation to pair %d refused: %v", s.PreActive, err)
+		}
+	}
+}
+
 func verifC12RotateStep(f verifkit.F, c *verifkit.Case, e *verifC12Env, s verifC12CSR) {
 	c.Label("rotation-case")
+	e.establish(f, s)
 	for i, r := range s.Rotate {
 		target := e.cas[((r.To%len(e.cas))+len(e.cas))%len(e.cas)]
 		rootsBefore, activeBefore := verifC12RootsNow(f, e)
@@ -648,21 +714,7 @@ func verifC12RotateStep(f verifkit.F, c *verifkit.Case, e *verifC12Env, s verifC
 		if r.Force {
 			c.Label("rotate:force-without-cross-signing")
 		}
-		args := &structs.CARequest{
-			Datacenter: e.dc,
-			Config: &structs.CAConfiguration{
-				Provider: structs.ConsulCAProvider,
-				Config: map[string]interface{}{
-					"PrivateKey":          target.SigningKey,
-					"RootCert":            target.RootCert,
-					"LeafCertTTL":         "72h",
-					"IntermediateCertTTL": "288h",
-					"CSRMaxPerSecond":     0,
-					"CSRMaxConcurrent":    0,
-				},
-				ForceWithoutCrossSigning: r.Force,
-			},
-		}
+		args := e.rotationConfig(r.To, r.Force)
 		uerr := e.srv.caManager.UpdateConfiguration(args)
 		verifkit.For("C12").AddExtraInt("ca_config_updates", 1)
 		what := fmt.Sprintf("configuration update %d of %v (pair %d, %s, force=%v) -> err=%v", i+1, s.Rotate, r.To, kind, r.Force, uerr)
@@ -1104,6 +1156,7 @@ func TestVerifC12Sign(t *testing.T) {
 		}
 		if fam == 15 {
 			s := verifC12GenRotation(t)
+			s.PreListed, s.PreActive = env.rotationState(t)
 			c.Op(s)
 			verifC12RotateStep(t, c, env, s)
 			c.Done()
